@@ -76,7 +76,7 @@ fn client_delete(it: &mut ResponseIterator) -> (r: Result<(), Error>)
     ensures
         r.is_ok(),
         final(it).wf() && pf_packet(final(it).pk()) && !final(it).pp().maybe_compressed && final(it).rr_iterator.offset.is_none()
-            && final(it).rr_iterator.section == old(it).rr_iterator.section,
+            && final(it).rr_iterator.section == old(it).rr_iterator.section && final(it).tfin() == old(it).tfin() && final(it).pk().len() < old(it).pk().len(),
         ({ let u = old(it).pk(); let v = final(it).pk(); let si = sec_idx(old(it).rr_iterator.section); let k = old(it).visited() - 1;
            let st = sec_st(u, si); let n = sec_n(u, si); let o = old(it).rr_iterator.offset.unwrap() as int;
            // the section now has n-1 records: the k records before the cursor where they were, the n-k-1 after it moved up to the cursor's position
@@ -142,4 +142,42 @@ fn client_insert(pp: &mut ParsedPacket, section: Section, rr: RR) -> (r: Result<
         }
     }
     r
+}
+
+
+// C11: a walk that deletes every record it is given terminates, and the emptied section reads as absent
+fn client_delete_all_answers(pp: &mut ParsedPacket) -> (n: usize)
+    requires old(pp).wf(), !old(pp).maybe_compressed, pf_packet(old(pp).bytes()), old(pp).bytes().len() <= 0xffff
+    ensures final(pp).wf(), pf_packet(final(pp).bytes()), !final(pp).maybe_compressed,
+        sec_n(final(pp).bytes(), 1) == 0, final(pp).offset_answers.is_none(), n == sec_n(old(pp).bytes(), 1),
+{
+    hide(pf_rr); hide(pf_rrs); hide(pf_rrs_end); hide(pf_n_opt); hide(pf_packet); hide(opt_at); hide(pcs_walk); hide(rec_ok); hide(opts); hide(wf_bytes); hide(recs_all); hide(sec_end); hide(n_opt);
+    hide(ParsedPacket::wf); hide(walk); hide(skip_walk);
+    let ghost cnt0 = sec_n(pp.bytes(), 1);
+    let ghost fin = *final(pp);
+    let mut n: usize = 0;
+    let mut it = pp.into_iter_answer();
+    while let Some(item) = it
+        invariant
+            n <= cnt0 <= 0xffff,
+            it matches Some(i) ==> i.wf() && i.rr_iterator.offset.is_some() && i.rr_iterator.section is Answer && !i.pp().maybe_compressed && pf_packet(i.pk())
+                && i.pk().len() <= 0xffff && sec_n(i.pk(), 1) == cnt0 - n && i.tfin() == fin,
+            it is None ==> fin.wf() && pf_packet(fin.bytes()) && !fin.maybe_compressed && sec_n(fin.bytes(), 1) == 0 && n == cnt0,
+        ensures fin.wf() && pf_packet(fin.bytes()) && !fin.maybe_compressed && sec_n(fin.bytes(), 1) == 0 && n == cnt0,
+        decreases cnt0 - n
+    {
+        let mut item = item;
+        proof { lemma_resp_k(&item); }
+        let _ = client_delete(&mut item);
+        n += 1;
+        let ghost v = item.pk();
+        proof {
+            // no OPT record in the answer section: the restart yields a record whenever one is left
+            reveal(ParsedPacket::wf); reveal(wf_bytes);
+            if sec_count(v, Section::Answer) >= 1 { lemma_no_opt_at(v, sec_start(v, Section::Answer), sec_count(v, Section::Answer), 0); }
+        }
+        it = item.next();
+    }
+    proof { lemma_wf_offsets(fin); }
+    n
 }
